@@ -250,6 +250,16 @@ class QRun:
             sim.event("the", qid, res[0], freeze(res[1]))
         return res
 
+    def forget_inferred_instances(self):
+        """Instances built by rule heads / Add conclusions are new data.  The history properties speak about
+        UNCHANGED data, so after every evaluation the harness discards them from the registry again (the world's own
+        objects are Items and are untouched)."""
+        from entity_query_language.symbolic import Variable
+        for cls in (W.View, W.Pair, W.Solo, W.Tagged):
+            c = Variable._cache_.pop(cls, None)
+            if c is not None:
+                c.clear()
+
     def twin(self, only: Optional[List[str]] = None) -> Optional[Pool]:
         """The same pool spec built from scratch, fresh variables, plain list copies of the same data."""
         try:
